@@ -111,4 +111,76 @@ theorem comma_list_counterexample :
     ListClass.set .comma (ListClass.str .comma ["a,b".toList]) = ["a".toList, "b".toList] := by
   decide
 
+/-! ### the value tree: rejection is atomic, overrides are local, unset values follow -/
+
+/-- `Extends x x'`: every node of `x` is in `x'` with the same value and the same `_wasSet`
+(reaching a node through `get` may add unset children, nothing else).
+A `set(text)` that is rejected — at any level, by any class — leaves exactly the tree that merely
+reaching the node leaves: every value that was in force stays in force. -/
+theorem reject_atomic {α : Type} (C : Cls α) (B : Str) (s : St α) (w : Where) (text : Str)
+    (h : (setText C B s w text).2 = .invalid) :
+    (setText C B s w text).1 = ⟨(s.var.reach C B s.cache w).1, s.cache⟩ ∧
+      Extends s.var (setText C B s w text).1.var := by
+  have h1 := setText_not_done C B s w text (by rw [h]; simp)
+  refine ⟨h1, ?_⟩
+  rw [h1]
+  exact reach_extends C B s.cache s.var w
+
+/-- the same for `setValue(v)` rejected by the class (range checks of the Integer family) -/
+theorem reject_atomic_setValue {α : Type} (C : Cls α) (B : Str) (s : St α) (w : Where) :
+    (setVal C B s w .error).1 = ⟨(s.var.reach C B s.cache w).1, s.cache⟩ ∧
+      Extends s.var (setVal C B s w .error).1.var := by
+  have h1 : (setVal C B s w .error).1 = ⟨(s.var.reach C B s.cache w).1, s.cache⟩ := by
+    unfold setVal
+    split
+    · rename_i x1 hr; rw [hr]
+    · rename_i x1 cur hr; rw [hr]
+  refine ⟨h1, ?_⟩
+  rw [h1]
+  exact reach_extends C B s.cache s.var w
+
+example : (setText (ClassId.cls (fun _ => false) (.int .pos) (.i 1)) "v".toList
+    ⟨⟨.i 5, true, [], []⟩, []⟩ (.chan "#c".toList) "0".toList).2 = .invalid := by decide
+
+/-- what `getSpecific(network, channel)()` answers is the pure lookup `resolve` on the tree it
+leaves (`netOk` / `chanOk`: the network is known / the channel name is valid) -/
+theorem getSpecific_sound {α : Type} (C : Cls α) (K : Kind) (B : Str) (s s' : St α)
+    (network channel : Option Str) (netOk chanOk : Bool) (v : α)
+    (h : getSpecific C K B s network channel netOk chanOk = (s', .val v)) :
+    resolve s'.var (if netOk then network else none) (if chanOk then channel else none) = some v :=
+  (getSpecific_resolve C K B s s' network channel netOk chanOk v h).1
+
+/-- An accepted assignment at `w` (general value, `:network`, `#channel` or `:network.#channel`)
+changes what `getSpecific` answers only for probes that concern that network / channel
+(`affects`): for every other probe the answer on the tree after the assignment is the answer on
+the tree in which the node was merely reached, and any answer available before is unchanged. -/
+theorem override_local {α : Type} (C : Cls α) (B : Str) (s s' : St α) (w : Where) (text : Str)
+    (h : setText C B s w text = (s', .done)) (n c : Option Str) (ha : affects w n c = false) :
+    resolve s'.var n c = resolve (s.var.reach C B s.cache w).1 n c ∧
+      ∀ a, resolve s.var n c = some a → resolve s'.var n c = some a := by
+  obtain ⟨cur, v, _, _, rfl⟩ := setText_done C B s s' w text h
+  have h1 := resolve_assign_local (s.var.reach C B s.cache w).1 w v false n c ha
+  refine ⟨h1, fun a hr => ?_⟩
+  simp only
+  rw [h1]
+  exact resolve_of_extends (reach_extends C B s.cache s.var w) n c a hr
+
+example : affects (.chan "#a".toList) (some "net".toList) (some "#b".toList) = false := by decide
+
+/-- Unset specific values follow later changes of the general value: after an accepted
+`set(text)` on the general value, every probe whose path consists of unset nodes answers the new
+general value. -/
+theorem follow_general {α : Type} (C : Cls α) (B : Str) (s s' : St α) (text : Str)
+    (h : setText C B s .base text = (s', .done)) (n c : Option Str) (hu : UnsetPath s.var n c) :
+    ∃ v, C.set s.var.value text = .ok v ∧ s'.var.value = v ∧ resolve s'.var n c = some v := by
+  obtain ⟨cur, v, h1, h2, rfl⟩ := setText_done C B s s' .base text h
+  simp only [Var.reach] at h1 h2 ⊢
+  cases h1
+  exact ⟨v, h2, rfl, resolve_setV_follow s.var v false n c hu⟩
+
+example : UnsetPath (⟨.b false, true, [("n".toList, ⟨.b false, false, [("#c".toList, ⟨.b false, false⟩)]⟩)],
+    [("#c".toList, ⟨.b false, false⟩)]⟩ : Var Val) (some "N".toList) (some "#C".toList) := by
+  refine ⟨⟨.b false, false, [("#c".toList, ⟨.b false, false⟩)]⟩, ⟨.b false, false⟩, ⟨.b false, false⟩, ?_⟩
+  decide
+
 end C15
